@@ -118,6 +118,30 @@ def run (ws : List String) : String :=
         | none => "kerr"
         | some cv => showCanvas cv)
     | _ => "bad-op"
+  -- patch CC NEC {AA}*NEC NPIX {MODE ALPHA CLAMP}*(1+NEC) {f32bits}*((CC+NEC)*NPIX) {f32bits}*((CC+NEC)*NPIX)
+  | "patch" :: rest =>
+    match (do
+      let cc ← nat
+      let nec ← nat
+      let aa ← rep nec int
+      let npix ← nat
+      let infos ← rep (1 + nec) (do
+        let m ← nat
+        let a ← nat
+        let c ← bool
+        pure (PatchMode.ofCode m, a, c))
+      let base ← rep (cc + nec) (rep npix nat)
+      let refv ← rep (cc + nec) (rep npix nat)
+      pure (cc, aa, npix, infos, base, refv)).run rest with
+    | some ((cc, aa, npix, infos, base, refv), []) =>
+      let assoc := aa.map fun a => if a < 0 then none else some (a != 0)
+      let f := fun (n : Nat) => Float32.ofBits n.toUInt32
+      let cols := (List.range npix).map fun i =>
+        patchPixel (α := Float32) cc assoc infos (base.map fun ch => f (ch.getD i 0)) (refv.map fun ch => f (ch.getD i 0))
+      let chans := (List.range (cc + aa.length)).map fun c =>
+        " ".intercalate (cols.map fun px => toString (px.getD c (0 : Float32)).toBits.toNat)
+      "ok " ++ " | ".intercalate chans
+    | _ => "bad-op"
   | _ => "bad-op"
 
 def main : IO Unit := runLoop () fun _ ws => ((), run ws)
